@@ -141,11 +141,21 @@ Proof.
         match goal with Hig : ignored w2 _ f = false |- _ =>
           exact (passed_intro w0 (x_pats c) w2 f data Hfw Hdw Hdata Hig) end.
       * unfold add_file. hsteps; exfalso; unfold file in Hdata; congruence.
-    + (* a tracked path that is gone *)
-      split; [exact Logic.I|]. split; [|exact Logic.I].
-      eapply addx_inv_delete; eassumption.
-    + split; [exact Logic.I|]. split; [|exact Logic.I].
-      eapply addx_inv_delete; eassumption.
+    + (* a tracked path, or a tracked directory, that is gone: only un-staging *)
+      apply at_Inv. intro Hi1. unfold add_missing_body. hsteps; try exact Logic.I.
+      * split; [exact Logic.I|]. split; [|exact Logic.I].
+        eapply addx_inv_delete; eassumption.
+      * apply at_iterM with (J := fun _ => True); [auto| |auto].
+        intros q w2 Hq Hi2 _. unfold add_unstage_one. hsteps; try exact Logic.I.
+        split; [exact Logic.I|]. split; [|exact Logic.I].
+        eapply addx_inv_delete; eassumption.
+    + apply at_Inv. intro Hi1. unfold add_missing_body. hsteps; try exact Logic.I.
+      * split; [exact Logic.I|]. split; [|exact Logic.I].
+        eapply addx_inv_delete; eassumption.
+      * apply at_iterM with (J := fun _ => True); [auto| |auto].
+        intros q w2 Hq Hi2 _. unfold add_unstage_one. hsteps; try exact Logic.I.
+        split; [exact Logic.I|]. split; [|exact Logic.I].
+        eapply addx_inv_delete; eassumption.
   - intros w1 _ _. hsteps. exact Logic.I.
 Qed.
 
@@ -943,8 +953,18 @@ Proof.
     apply emits_iterM. intros f _. apply emits_bind_getw. intros w' _.
     destruct (ignored w' (x_pats c) f) eqn:Hig'; [hsteps; exact Logic.I|].
     call_emits2 add_file_emits2. exact (not_ignored_not_goit w' _ f Hb Hig').
-  - hsteps. gsplit2; [|exact Logic.I]. apply (set_index_delete2 w a); assumption.
-  - hsteps. gsplit2; [|exact Logic.I]. apply (set_index_delete2 w a); assumption.
+  - destruct (tracked w a).
+    + hsteps. gsplit2; [|exact Logic.I]. apply (set_index_delete2 w a); assumption.
+    + destruct (is_dir (idx_of w) a); [|hsteps].
+      apply hoare_at with (P := fun _ : world => True); [|exact Logic.I].
+      apply emits_iterM. intros q _. apply emits_bind_getw. intros w' Hi'.
+      hsteps. gsplit2; [|exact Logic.I]. apply (set_index_delete2 w' q); assumption.
+  - destruct (tracked w a).
+    + hsteps. gsplit2; [|exact Logic.I]. apply (set_index_delete2 w a); assumption.
+    + destruct (is_dir (idx_of w) a); [|hsteps].
+      apply hoare_at with (P := fun _ : world => True); [|exact Logic.I].
+      apply emits_iterM. intros q _. apply emits_bind_getw. intros w' Hi'.
+      hsteps. gsplit2; [|exact Logic.I]. apply (set_index_delete2 w' q); assumption.
 Qed.
 
 Lemma rm_one_emits2 : forall p, emits Inv2 G2 (rm_one p).
